@@ -447,7 +447,7 @@ fn emissions_sequences(e: &Env, tier: Tier, t: &mut T) -> u64 {
     let ta = w.users[0].tokens[&w.banks[0].mint];
     let mut states = 0u64;
     // budget variants: ample, and nearly exhausted (the cap binds)
-    for (bname, remaining, rate) in [("ample", 1_000_000_000f64, 1_000_000u64), ("nearly_exhausted", 1500.25f64, 1_000_000u64), ("zero_rate", 1_000_000_000f64, 0u64), ("high_rate", 1_000_000_000_000f64, 5_000_000_000u64), ("initially_off", 1_000_000_000f64, 1_000_000u64)] {
+    for (bname, remaining, rate) in [("ample", 1_000_000_000f64, 1_000_000u64), ("nearly_exhausted", 1500.25f64, 1_000_000u64), ("zero_rate", 1_000_000_000f64, 0u64), ("high_rate", 1_000_000_000_000f64, 5_000_000_000u64), ("initially_off", 1_000_000_000f64, 1_000_000u64), ("legacy_unstamped", 1_000_000_000f64, 1_000_000u64)] {
         let mut s0 = e.s.clone();
         // bring u0's own emission clock up to the present before the budget is set
         let _ = process_tx(&mut s0, &Tx::one(ix::settle_emissions(accts[0], bank), &[act::stranger()]));
@@ -461,6 +461,17 @@ fn emissions_sequences(e: &Env, tier: Tier, t: &mut T) -> u64 {
             }
             b.total_liability_shares = I80F48::ZERO.into();
         });
+        if bname == "legacy_unstamped" {
+            // a position from before positions carried a reward clock: its stamp is 0, the first touch earns nothing
+            let bk = bank;
+            world::edit_account(&mut s0, &accts[0], |a| {
+                for b in a.lending_account.balances.iter_mut() {
+                    if b.active != 0 && b.bank_pk == bk {
+                        b.last_update = 0;
+                    }
+                }
+            });
+        }
         // fund the emissions vault generously so that payout never fails for lack of tokens
         mint_to(&mut s0, &w.mint_auth, &e.em_mint, &ix::emissions_vault(&bank, &e.em_mint), false, 2_000_000_000_000);
         // drop u1's debt position in this bank so that the books stay consistent (no borrowers)
@@ -839,7 +850,7 @@ pub fn run(tier: Tier) -> Outcome {
         "evaluations": t.cells,
         "distinct_nontrivial": ok,
         "emission_states": states,
-        "rule": "(A) buckets {0, 0.25, 1, 1.75, 100.5, 250.5}^3 x liquidity {0, 1, 5, 300, 352, 353, 1e6} x {SPL bank, Token-2022 bank with a 1 % transfer fee}: each bucket falls by a whole number not above its whole part, the liquidity vault pays exactly that sum, each of insurance vault / fee vault / global fee wallet's canonical token account receives its own bucket's amount (net of the mint's fee), everything whole is paid when liquidity suffices; (A2) after the global fee admin rotated the fee wallet, with the group's cached copy {stale, propagated}, collection offered the token account of {previous, current} wallet: nothing may be paid to the previous wallet's; (A3) a bank of a group whose program fees are switched off still holds a program bucket: collection offered the canonical fee-wallet token account / an outsider's; (B) {withdraw_fees, withdraw_insurance, withdraw_fees_permissionless} x 12 signers x {fixed destination, another token account}; (B2) 12 signers x {own, foreign group in the group slot} re-point the fee destination, then a stranger withdraws permissionlessly into it: only the bank's own group admin can make that pay; (C0) setup_emissions x top-up through update_emissions_parameters x reward mint {SPL, Token-2022 without fee, 1 % fee, fee capped at 700} x totals {1, 99, 100, 1e6, 123456789} x top-ups {0, 1, 101, 1e6, 77777777}: the booked remaining budget never exceeds the tokens in the reward vault; (C1) a second setup_emissions with another mint on a bank whose first budget is down to {0, 0.4, 25} while a position is still owed 10 units: refused, or the new vault covers budget plus what is owed; (C) every sequence up to depth 4 (quick) / 5 of {deposit small / large, withdraw, withdraw-all, settle, claim} by two accounts, clock advances {30 d, 1 y} (at most two) and the emissions admin switching the lending rewards off / on (at most twice) x budgets {ample, nearly exhausted, zero rate, high rate, ample but initially switched off}: credited rewards = elapsed x size-before x rate / year capped by the remaining budget, where *elapsed* is measured by the reference's own ledger of when each position was last touched (not read back from the program's field) and nothing is earned while the rewards are switched off at the time of the touch; budget falls by exactly that and never below zero; (C2) the same judgement on a bank that rewards borrowers / both sides (u0 lends, u1 owes; interest switched off): every sequence up to depth 3 (quick) / 4 of {settle either, lender deposits, borrower repays / borrows a little, claim by either, 30-day advance (at most two)}: a debt earns iff borrowing rewards are on, a deposit iff lending rewards are on, each on its own size; (D) reward withdrawal {signed, permissionless} x 12 signers x {normal, in receivership, frozen, disabled} x {configured destination, another reward token account}",
+        "rule": "(A) buckets {0, 0.25, 1, 1.75, 100.5, 250.5}^3 x liquidity {0, 1, 5, 300, 352, 353, 1e6} x {SPL bank, Token-2022 bank with a 1 % transfer fee}: each bucket falls by a whole number not above its whole part, the liquidity vault pays exactly that sum, each of insurance vault / fee vault / global fee wallet's canonical token account receives its own bucket's amount (net of the mint's fee), everything whole is paid when liquidity suffices; (A2) after the global fee admin rotated the fee wallet, with the group's cached copy {stale, propagated}, collection offered the token account of {previous, current} wallet: nothing may be paid to the previous wallet's; (A3) a bank of a group whose program fees are switched off still holds a program bucket: collection offered the canonical fee-wallet token account / an outsider's; (B) {withdraw_fees, withdraw_insurance, withdraw_fees_permissionless} x 12 signers x {fixed destination, another token account}; (B2) 12 signers x {own, foreign group in the group slot} re-point the fee destination, then a stranger withdraws permissionlessly into it: only the bank's own group admin can make that pay; (C0) setup_emissions x top-up through update_emissions_parameters x reward mint {SPL, Token-2022 without fee, 1 % fee, fee capped at 700} x totals {1, 99, 100, 1e6, 123456789} x top-ups {0, 1, 101, 1e6, 77777777}: the booked remaining budget never exceeds the tokens in the reward vault; (C1) a second setup_emissions with another mint on a bank whose first budget is down to {0, 0.4, 25} while a position is still owed 10 units: refused, or the new vault covers budget plus what is owed; (C) every sequence up to depth 4 (quick) / 5 of {deposit small / large, withdraw, withdraw-all, settle, claim} by two accounts, clock advances {30 d, 1 y} (at most two) and the emissions admin switching the lending rewards off / on (at most twice) x budgets {ample, nearly exhausted, zero rate, high rate, ample but initially switched off, ample with a legacy position whose reward clock was never stamped}: credited rewards = elapsed x size-before x rate / year capped by the remaining budget, where *elapsed* is measured by the reference's own ledger of when each position was last touched (not read back from the program's field) and nothing is earned while the rewards are switched off at the time of the touch; budget falls by exactly that and never below zero; (C2) the same judgement on a bank that rewards borrowers / both sides (u0 lends, u1 owes; interest switched off): every sequence up to depth 3 (quick) / 4 of {settle either, lender deposits, borrower repays / borrows a little, claim by either, 30-day advance (at most two)}: a debt earns iff borrowing rewards are on, a deposit iff lending rewards are on, each on its own size; (D) reward withdrawal {signed, permissionless} x 12 signers x {normal, in receivership, frozen, disabled} x {configured destination, another reward token account}",
         "exhaustive": TRUNCATED.load(std::sync::atomic::Ordering::Relaxed) == 0,
         "cap_hit": if TRUNCATED.load(std::sync::atomic::Ordering::Relaxed) == 0 { serde_json::Value::Null } else { json!(format!("reward-sequence frontier capped at {} states per layer; {} states were dropped from the last layers", FRONTIER_CAP, TRUNCATED.load(std::sync::atomic::Ordering::Relaxed))) },
         "outcome_classes": t.classes,
